@@ -8758,6 +8758,14 @@ structure CapWiring where
   backwards : Bool
   deriving DecidableEq, Repr
 
+/-- memoisation inside a `get_*` method:  `cached` — the method writes an attribute of the object
+    (returns what it stored there for the step, if anything, else computes, stores and returns);
+    `invalidatedBySet` — the corresponding `set_*` method removes / replaces that entry -/
+structure CacheWiring where
+  cached : Bool
+  invalidatedBySet : Bool
+  deriving DecidableEq, Repr
+
 /-- one `get_mpo_tensor`:  `create_delta(tensor, deltaScramble)` when the stored tensor has rank
     `deltaRank`;  `transform_in`:  axis `inAxis` of the tensor is contracted with axis `inMatAxis` of
     `transform_in` and the new axis is put at `inAxis` again;  `transform_out`: axis `outAxis` of the
@@ -9043,11 +9051,114 @@ def _mw_get_mpo_lean(name, doc, rank, scr, untr, w):
                w[0], w[1], w[2], w[3]))
 
 
-def _mw_get_mpo_tensor(src, out):
+_MW_MUTATORS = ("append", "extend", "insert", "update", "setdefault", "pop", "clear", "remove",
+                 "popitem", "resize", "create_dataset")
+
+
+def _mw_self_attr(node):
+    """`self.<attr>` (possibly under subscripts / further attributes) -> attr, else None"""
+    while isinstance(node, (ast.Subscript, ast.Attribute)):
+        if isinstance(node, ast.Attribute) and isinstance(node.value, ast.Name) \
+                and node.value.id == "self":
+            return node.attr
+        node = node.value
+    return None
+
+
+def _mw_written_attrs(fn):
+    """attributes of `self` that the method assigns, deletes or mutates through a known mutator
+    (or hands to the HDF5 writer `_set_data_and_shape`)"""
+    out = []
+
+    def add(a):
+        if a is not None and a not in out:
+            out.append(a)
+    for n in ast.walk(fn):
+        if isinstance(n, (ast.Assign, ast.AnnAssign, ast.AugAssign)):
+            tgts = n.targets if isinstance(n, ast.Assign) else [n.target]
+            for t in tgts:
+                for e in (t.elts if isinstance(t, (ast.Tuple, ast.List)) else [t]):
+                    add(_mw_self_attr(e))
+        elif isinstance(n, ast.Delete):
+            for t in n.targets:
+                add(_mw_self_attr(t))
+        elif isinstance(n, ast.Call):
+            if isinstance(n.func, ast.Attribute) and n.func.attr in _MW_MUTATORS:
+                add(_mw_self_attr(n.func.value))
+            if _mw_norm(n.func) == "_set_data_and_shape":
+                for a in list(n.args) + [k.value for k in n.keywords]:
+                    add(_mw_self_attr(a))
+    return out
+
+
+def _mw_mentions(node, attrs):
+    return any(isinstance(n, ast.Attribute) and isinstance(n.value, ast.Name) and n.value.id == "self"
+               and n.attr in attrs for n in ast.walk(node))
+
+
+def _mw_cache(src, cls, getter, setter):
+    """(cache attributes written by cls.getter, are they all invalidated by cls.setter)"""
+    rel = "oqupy/process_tensor.py"
+    g = src.function(rel, "%s.%s" % (cls, getter))
+    st = src.function(rel, "%s.%s" % (cls, setter))
+    attrs = _mw_written_attrs(g)
+    if not attrs:
+        return [], True
+    # invalidation: the setter removes / replaces the entry (pop, del, clear, assignment)
+    done = set()
+    for n in ast.walk(st):
+        if isinstance(n, ast.Call) and isinstance(n.func, ast.Attribute) \
+                and n.func.attr in ("pop", "clear", "popitem"):
+            a = _mw_self_attr(n.func.value)
+            if a in attrs:
+                done.add(a)
+        elif isinstance(n, ast.Delete):
+            for t in n.targets:
+                if _mw_self_attr(t) in attrs:
+                    done.add(_mw_self_attr(t))
+        elif isinstance(n, ast.Assign):
+            for t in n.targets:
+                if _mw_self_attr(t) in attrs:
+                    done.add(_mw_self_attr(t))
+    return attrs, all(a in done for a in attrs)
+
+
+def _mw_cache_lean(name, cls, getter, setter, attrs, inval):
+    doc = "%s.%s writes %s" % (cls, getter, ", ".join("self." + a for a in attrs)) if attrs \
+        else "%s.%s writes no attribute of the object" % (cls, getter)
+    if attrs:
+        doc += "; %s.%s %s" % (cls, setter, "removes / replaces the entry" if inval
+                               else "does NOT invalidate it")
+    return ("/-- %s -/\ndef %s : CacheWiring := { cached := %s, invalidatedBySet := %s }\n"
+            % (doc, name, "true" if attrs else "false", "true" if inval else "false"))
+
+
+def _mw_strip_cache(body, attrs):
+    """top-level statements of a getter that do not touch its cache attributes"""
+    return [s for s in body if not _mw_mentions(s, attrs)]
+
+
+def _mw_caches(src, out):
+    res = {}
+    for cls, tag in (("SimpleProcessTensor", "simple"), ("FileProcessTensor", "file")):
+        for getter, setter, what in (("get_mpo_tensor", "set_mpo_tensor", "Mpo"),
+                                     ("get_cap_tensor", "set_cap_tensor", "Cap")):
+            attrs, inval = _mw_cache(src, cls, getter, setter)
+            res[(cls, getter)] = attrs
+            out.append(_mw_cache_lean("%s%sCache" % (tag, what), cls, getter, setter, attrs, inval))
+        for other in ("get_initial_tensor", "get_bond_dimensions"):
+            w = _mw_written_attrs(src.function("oqupy/process_tensor.py", "%s.%s" % (cls, other)))
+            if w:
+                raise Untranslatable("%s.%s writes %s" % (cls, other, w))
+    return res
+
+
+def _mw_get_mpo_tensor(src, out, caches=None):
+    caches = caches or {}
     rel = "oqupy/process_tensor.py"
     # SimpleProcessTensor
     fn = src.function(rel, "SimpleProcessTensor.get_mpo_tensor")
-    body = _mw_body(fn)
+    body = _mw_strip_cache(_mw_body(fn), caches.get(("SimpleProcessTensor", "get_mpo_tensor"), []))
     texts = [_mw_norm(s) for s in body]
     if [a.arg for a in fn.args.args] != ["self", "step", "transformed"] or len(body) != 8 \
             or texts[0] != "length = len(self._mpo_tensors)" \
@@ -9064,7 +9175,7 @@ def _mw_get_mpo_tensor(src, out):
         "tensor `_mpo_tensors[step]`" % (rel, fn.lineno), rank, scr, True, w))
     # FileProcessTensor
     fn = src.function(rel, "FileProcessTensor.get_mpo_tensor")
-    body = _mw_body(fn)
+    body = _mw_strip_cache(_mw_body(fn), caches.get(("FileProcessTensor", "get_mpo_tensor"), []))
     texts = [_mw_norm(s) for s in body]
     if [a.arg for a in fn.args.args] != ["self", "step", "transformed"] or len(body) != 3 \
             or texts[0] != "tensor = _get_data_and_shape(step, data=self._mpo_tensors_data, " \
@@ -9256,7 +9367,8 @@ def frag_mpowiring(src):
     _mw_apply_pt_mpos(src, out)
     _mw_apply_caps(src, out)
     _mw_create_delta(src, out)
-    _mw_get_mpo_tensor(src, out)
+    caches = _mw_caches(src, out)
+    _mw_get_mpo_tensor(src, out, caches)
     _mw_trace_vectors(src, out)
     _mw_compute_caps(src, out)
     return "\n".join(out)
